@@ -2,6 +2,7 @@ import RTV.Drv.Match
 import RTV.Drv.WellFormed
 import RTV.Drv.Unit
 import RTV.Drv.Num
+import RTV.Drv.NumFrac
 import RTV.Drv.ResGen
 import RTV.Drv.Timex
 import RTV.Drv.Factory
@@ -39,6 +40,7 @@ def dispatch (line : String) : String :=
       <|> dispatchTimePeriod op args
       <|> dispatchDtRes op args
       <|> dispatchNum op args
+      <|> dispatchNumFrac op args
       <|> dispatchSpan op args
       <|> dispatchUnitExtract op args
       -- <|> dispatchOther op args   (one alternative per layer)
